@@ -100,6 +100,9 @@ func (g *gen) decls(k int, depth int, classes bool) []sx.Stmt {
 		case 10:
 			if depth == 0 && g.globs {
 				pat := g.pick([]string{"*", "**", "a*", "*"})
+				if classes && pat == "**" {
+					pat = "*" // `**` also descends into `classes` and restyles the class definitions themselves
+				}
 				out = append(out, sx.F(sx.U(pat, "style", "opacity"), sx.VS(lit(g.pick([]string{"0.3", "0.6"})))))
 				g.c.Count("decl:glob")
 			}
